@@ -401,6 +401,18 @@ def canonical_order(ctx, rid):
                      % src(x)[:60])
     if not n:
         raise AnalysisError("canonical_order: no sort found in any squash_key")
+    # no path hands the key back as it was given (a "this key is already sorted" shortcut decides by the labels' own `<`, which
+    # is not the canonical order for labels of different but comparable types, and keeps what the spin parity would cancel)
+    for c in P.subclasses_of('DictArithmetic'):
+        m = c.methods.get('squash_key')
+        if m is None:
+            continue
+        kp = m.all_params[-1]
+        raw = [r for r in ast.walk(m.node) if isinstance(r, ast.Return) and r.value is not None and is_name(expand_names(m.node, r.value), kp)]
+        ctx.inst(rid, m, raw[0] if raw else 'returns of %s.squash_key' % c.name, not raw,
+                 "every return is the canonicalised key" if not raw else
+                 "`%s` returns the key as it was given: equal terms written with labels in another order (or of comparable but "
+                 "different types) are stored under different keys" % src(raw[0])[:60])
     # the key itself: (something of the label's type only, the label itself) - labels of one type keep their natural order
     ok_fn = P.func('_ordering_key.ordering_key')
     x = ok_fn.params[0]
